@@ -631,22 +631,10 @@ def set_name_cases(P, res):
         res.ok({'method': ds.fq, 'cases': 8, 'name_validated_before_reflection': True, 'lists_all': True, 'invalid_value_reported': True})
 
 
-def rule_naming(P):
-    res = RuleResult('R-HIDDEN')
-    naming_cases(P, res)
-    return res
 
 
-def rule_rewrites(P):
-    res = RuleResult('R-METAREWRITE')
-    rewrite_cases(P, res)
-    return res
 
 
-def rule_setname(P):
-    res = RuleResult('R-SETTINGS')
-    set_name_cases(P, res)
-    return res
 
 
 # ----------------------------------------------------------------------
